@@ -134,12 +134,12 @@ namespace MosVerif.LoadCfg
 
 /-- the full start-up decision agrees with the full specification as soon as the tag tables do -/
 theorem acceptsFull_eq (c : Cfg) (h : accepts c = specAccepts c) : acceptsFull c = specFull c := by
-  unfold acceptsFull specFull; rw [h]
+  unfold acceptsFull specFull; rw [h]; rfl
 
 /-- a configuration that starts has only reject values that are DNS header rcodes -/
 theorem accepted_rejects_are_rcodes (c : Cfg) (h : acceptsFull c = true) : ∀ r ∈ c.rejects, r < 16 := by
   unfold acceptsFull at h
-  simp only [Bool.and_eq_true, List.all_eq_true, decide_eq_true_eq] at h
+  simp only [Bool.and_eq_true, List.all_eq_true, rejectInRange, decide_eq_true_eq] at h
   intro r hr
   have := h.1.2 r hr
   omega
